@@ -149,7 +149,8 @@ def main():
             self.g = g
             self.p = p
             self.cfg = cfg
-            self.w = types.SimpleNamespace(modules=sys.modules)
+            self.w = types.SimpleNamespace(modules=sys.modules, import_module=importlib.import_module, environ=os.environ,
+                                           loop_hooks={}, use_contracts=False)
             self.honest_value = {}
             self.entry = None
 
